@@ -28,8 +28,16 @@ func rewriteFile(file, spec, out string) error {
 			continue
 		}
 		eq := strings.SplitN(one, "=", 2)
-		at := strings.SplitN(eq[1], "@", 2)
-		target, stub, roots := eq[0], at[0], strings.Split(at[1], "|")
+		target := eq[0]
+		type alt struct {
+			stub  string
+			roots []string
+		}
+		var alts []alt
+		for _, a := range strings.Split(eq[1], ",") {
+			at := strings.SplitN(a, "@", 2)
+			alts = append(alts, alt{at[0], strings.Split(at[1], "|")})
+		}
 		recv, name := "", target
 		if i := strings.Index(target, "."); i >= 0 {
 			recv, name = target[:i], target[i+1:]
@@ -97,10 +105,6 @@ func rewriteFile(file, spec, out string) error {
 			if fd.Type.Results != nil && len(fd.Type.Results.List) > 0 {
 				ret = "return "
 			}
-			conds := make([]string, len(roots))
-			for i, r := range roots {
-				conds[i] = fmt.Sprintf("vRoot == %q", r)
-			}
 			orig := name + "__vorig"
 			origArgs := args
 			if recvName != "" {
@@ -111,8 +115,16 @@ func rewriteFile(file, spec, out string) error {
 			if ret != "" {
 				after = ""
 			}
-			fmt.Fprintf(&tail, "\n%s {\n\tif %s {\n\t\t%s%s(%s)%s\n\t}\n\t%s%s(%s)\n}\n", sig.String(),
-				strings.Join(conds, " || "), ret, stub, strings.Join(args, ", "), after, ret, orig, strings.Join(origArgs, ", "))
+			fmt.Fprintf(&tail, "\n%s {\n", sig.String())
+			for _, a := range alts {
+				conds := make([]string, len(a.roots))
+				for i, r := range a.roots {
+					conds[i] = fmt.Sprintf("vRoot == %q", r)
+				}
+				fmt.Fprintf(&tail, "\tif %s {\n\t\t%s%s(%s)%s\n\t}\n", strings.Join(conds, " || "), ret, a.stub,
+					strings.Join(args, ", "), after)
+			}
+			fmt.Fprintf(&tail, "\t%s%s(%s)\n}\n", ret, orig, strings.Join(origArgs, ", "))
 			fd.Name.Name = name + "__vorig"
 		}
 		if !found {
